@@ -289,7 +289,7 @@ func (x *Exec) resetPath(decisions []uint64) {
 
 func (x *Exec) freshVar(tag string, w int) *Term {
 	x.nvars++
-	v := x.tt.Var(fmt.Sprintf("v%d_%s", x.nvars, sanitizeTag(tag)), w)
+	v := x.tt.Var(fmt.Sprintf("v%d_%s_w%d", x.nvars, sanitizeTag(tag), w), w)
 	x.symVars = append(x.symVars, v)
 	return v
 }
